@@ -582,8 +582,14 @@ func redactExternalURL(rawURL string) string {
 	return u.String()
 }
 
-// batchMetadata extracts custom metadata from a record batch.
+// batchMetadata extracts custom metadata from a record batch. The framework's
+// log, error and pointer markers travel in the batch's own IPC
+// custom_metadata, so that is consulted first; schema-level metadata is only
+// a fallback for batches that carry none.
 func batchMetadata(rec arrow.RecordBatch) arrow.Metadata {
+	if rm, ok := rec.(arrow.RecordBatchWithMetadata); ok && rm.Metadata().Len() > 0 {
+		return rm.Metadata()
+	}
 	if rec.Schema().HasMetadata() {
 		return rec.Schema().Metadata()
 	}
